@@ -568,6 +568,13 @@ func (h *harness) c09c20(oracle, detail string) {
 // the run is counted for.
 func (h *harness) violate(property, oracle, format string, args ...interface{}) {
 	h.stop = true
+	if property == "C10" && h.mode == "crash" && h.ctx.Property == "C04" &&
+		oracle != "bootstrap-mismatch" && oracle != "nodeinfo-mismatch" {
+		// C04 (for the default Pebble log store and for Tan): what a replica saved
+		// before it spoke - term, vote, entries, the snapshot record of an
+		// InstallSnapshot - is there after a crash at any instant
+		h.ctx.Violate("C04", oracle, "log store after a crash: "+format, args...)
+	}
 	h.ctx.Violate(property, oracle, format, args...)
 }
 
